@@ -205,9 +205,9 @@ def run(ctx):
     env = vlib.scrub_env(scratch=scratch)
     nsh = 16
     if tier == "quick":
-        plans = [("L1,L4,L5", "env", "sse,avx,mmx")]
+        plans = [("L1,L4,L5,L6", "env", "sse,avx,mmx")]
     else:
-        plans = [("L1,L2,L3,L4,L5", "env", "sse,avx,mmx"), ("L1,L4", "lattice", "sse,avx,mmx")]
+        plans = [("L1,L2,L3,L4,L5,L6", "env", "sse,avx,mmx"), ("L1,L4,L6", "lattice", "sse,avx,mmx")]
     res = vlib.Results()
     tot = {"functions": 0, "insns": 0, "equal": 0, "rejected_functions": 0, "as_runs": 0, "branches": 0}
     viols = []
